@@ -197,18 +197,40 @@ pub fn parse_priority_payload(stream_id: u32, payload: &[u8]) -> Option<Http2Pri
 /// - `:status` (responses only)
 fn extract_pseudo_header_order(frames: &[Http2Frame]) -> Vec<PseudoHeader> {
     // Find first HEADERS frame
-    let headers_frame = frames
+    let Some(position) = frames
         .iter()
-        .find(|f| f.frame_type == Http2FrameType::Headers && f.stream_id > 0);
+        .position(|f| f.frame_type == Http2FrameType::Headers && f.stream_id > 0)
+    else {
+        return Vec::new();
+    };
+    let Some(frame) = frames.get(position) else {
+        return Vec::new();
+    };
 
-    if let Some(frame) = headers_frame {
-        if let Ok(headers) = decode_headers(&frame.payload) {
-            return headers
-                .iter()
-                .filter(|h| h.name.starts_with(':'))
-                .map(|h| PseudoHeader::from(h.name.as_str()))
-                .collect();
+    // The header block is the HEADERS fragment (without padding and priority fields) followed by
+    // the CONTINUATION fragments of the same stream, up to END_HEADERS
+    let Ok(fragment) = Http2Parser::headers_fragment(frame) else {
+        return Vec::new();
+    };
+    let mut block = fragment.to_vec();
+    if frame.flags & 0x4 == 0 {
+        for next in frames.iter().skip(position.saturating_add(1)) {
+            if next.frame_type != Http2FrameType::Continuation || next.stream_id != frame.stream_id {
+                break;
+            }
+            block.extend_from_slice(&next.payload);
+            if next.flags & 0x4 != 0 {
+                break;
+            }
         }
+    }
+
+    if let Ok(headers) = decode_headers(&block) {
+        return headers
+            .iter()
+            .filter(|h| h.name.starts_with(':'))
+            .map(|h| PseudoHeader::from(h.name.as_str()))
+            .collect();
     }
 
     Vec::new()
